@@ -28,6 +28,7 @@ RULE = (
     "Non-trivial: a workflow writing >= 2 tiles, a template block, or a history with >= 2 calls; distinct by spec."
     ' Also: histories with override from another input, an absolutised index.wtml written next to index_rel.wtml, interrupted first run'
     's, and TOAST pyramids with two-digit level numbers.'
+    ' Round 8: every format in toasty.image.SUPPORTED_FORMATS; history steps in which tile_fits fails before writing any tile (missing input), followed by reuse.'
 )
 ASSUMPTIONS = ["WWT template convention: {1}=level, {2}=x, {3}=y", "HiPS, AstroPix/Djangoplicity network sources and Azure stores are not covered"]
 EXHAUSTIVE = {"quick": "template expansion for all positions to depth 6, both schemes", "thorough": "template expansion for all positions to depth 6, both schemes, all four formats"}
